@@ -25,15 +25,18 @@ RULE = (
     "objects builds a bijection (one object per distinct configuration, wired identically, cycles closed); "
     "from the call log of the universe classes: __post_init__ exactly once per object with all its own "
     "parameters present, every reachable pre-task executed exactly once, and on the params route every init "
-    "task exactly once, after all pre-tasks and before the task body. Non-trivial = a node referenced >= 2 "
-    "times, or a cycle, or a pre-task shared by >= 2 nodes; distinct = canonical JSON of the case."
+    "task exactly once, after all pre-tasks and before the task body; a lightweight task finds the object it "
+    "refers to built (parameters set, post-initialised) - a quarter of the instance() cases attach, before the "
+    "call, a pre-task referring to the root to a configuration below it (what add_pretasks_from gives). "
+    "Non-trivial = a node referenced >= 2 times, or a cycle, or a pre-task shared by >= 2 nodes, or such a "
+    "pre-task; distinct = canonical JSON of the case."
 )
 ASSUMPTIONS = [
     "'after its parameters are set' is about the object's own attributes (in a cycle a referenced object may still be a stub)",
     "the task body and lightweight tasks of the universe only record their calls",
 ]
 MIN_CLASSES = {
-    "quick": {"second-instance-same-store": 500, "equal-distinct-pre-tasks": 25, "route:instance": 1500, "route:params": 1000, "cycle": 300, "shared": 1000, "pre-task": 300, "init-task": 150, "shared-pre-task": 40},
+    "quick": {"second-instance-same-store": 500, "equal-distinct-pre-tasks": 25, "route:instance": 1500, "route:params": 1000, "cycle": 300, "shared": 1000, "pre-task": 300, "init-task": 150, "shared-pre-task": 40, "pre-task-refers-to-an-ancestor": 50},
     "thorough": {"cycle": 4000, "shared-pre-task": 400},
 }
 MAX_NODES = {"quick": 6, "thorough": 10}
@@ -50,7 +53,12 @@ def cases(ctx):
             if node["cls"] == "LW":
                 node["args"] = [[a, (v if a != "k" or not isinstance(v, int) else v % 2)] for a, v in node["args"] if a == "k" or draw(st.booleans())]
         # instance(): a second configuration of the graph is instantiated with the same object store
-        return {"bp": bp, "route": route, "root": draw(st.integers(0, 20)), "root2": draw(st.one_of(st.none(), st.integers(0, 20)))}
+        case = {"bp": bp, "route": route, "root": draw(st.integers(0, 20)), "root2": draw(st.one_of(st.none(), st.integers(0, 20)))}
+        if route == "instance" and draw(st.integers(0, 3)) == 0:
+            # a pre-task that refers to the root (an ancestor) is attached to a configuration below it
+            # - what add_pretasks_from(parent) gives - and possibly to the root as well
+            case["latepre"] = {"target": draw(st.integers(0, 20)), "also_root": draw(st.booleans()), "k": draw(st.integers(0, 1))}
+        return case
 
     return _cases()
 
@@ -194,6 +202,18 @@ def prop(ctx, case):
         k = case["root"] % n
         root = B.objs[k]
         store = ObjectStore()
+        lp = case.get("latepre")
+        if lp:
+            from experimaestro import LightweightTask
+
+            below = [c for cid, c in reach_configs(root)[0].items() if c is not root and not c.__xpm__._sealed and not isinstance(c, LightweightTask)]
+            if below and not root.__xpm__._sealed:
+                lw = universe.LW(k=lp["k"], cfg=root)
+                below[lp["target"] % len(below)].add_pretasks(lw)
+                if lp["also_root"]:
+                    root.add_pretasks(lw)
+                labels.append("pre-task-refers-to-an-ancestor")
+                nt = True
         try:
             inst = root.instance(DirectoryContext(ctx.scratch / "inst"), objects=store)
         except RecursionError:
@@ -276,6 +296,22 @@ def prop(ctx, case):
             missing = [a for a in cfg.__xpm__.values if a not in calls[0]]
             if missing:
                 ctx.violation("post-init:before-parameters", f"route {route}: __post_init__ of a {cname} ran before its parameters {missing} were set")
+    # a lightweight task runs on built objects: the object it refers to has its parameters and has
+    # been post-initialised (pre-tasks are there to act on the constructed object)
+    post_at = {}
+    for idx_, (kind, oid, cname, snapshot) in enumerate(log):
+        if kind == "post_init":
+            post_at.setdefault(oid, idx_)
+    for idx_, (kind, oid, cname, snapshot) in enumerate(log):
+        if kind != "lw_sees" or snapshot["cfg_id"] not in m.o2c:
+            continue
+        target_cfg = m.o2c[snapshot["cfg_id"]]
+        tname = type(target_cfg).__name__.split(".")[0]
+        missing = [a for a in target_cfg.__xpm__.values if a not in snapshot["cfg_keys"]]
+        if missing:
+            ctx.violation("lightweight-task:runs-on-unbuilt-object", f"route {route}: a lightweight task ran while the {tname} object it refers to had no value for {missing[:4]}")
+        elif snapshot["cfg_id"] in post_at and post_at[snapshot["cfg_id"]] > idx_:
+            ctx.violation("lightweight-task:runs-before-post-init", f"route {route}: a lightweight task ran before __post_init__ of the {tname} object it refers to")
     # executions
     execs = [(i, oid, cname, snap) for i, (kind, oid, cname, snap) in enumerate(log) if kind == "execute"]
     lw_execs = [e for e in execs if e[2] == "LW"]
